@@ -214,14 +214,20 @@ func HarnessC08NoPublisher() {
 	adds := vrt.Bool("mw.adds")
 	sub := &scriptedSubscriber{}
 	var inName, inSub, inPub string
+	fails := vrt.Bool("handler.fails")
+	var mwSaw error
 	hh := r.AddNoPublisherHandler("N", "tn", sub, func(m *Message) error {
 		c := m.Context()
 		inName, inSub, inPub = HandlerNameFromCtx(c), SubscribeTopicFromCtx(c), PublishTopicFromCtx(c)
+		if fails {
+			return errScripted
+		}
 		return nil
 	})
 	hh.AddMiddleware(func(h HandlerFunc) HandlerFunc {
 		return func(m *Message) ([]*Message, error) {
 			out, err := h(m)
+			mwSaw = err
 			if adds {
 				out = append(out, NewMessage("extra", nil))
 			}
@@ -251,7 +257,11 @@ func HarnessC08NoPublisher() {
 	}
 	vrt.Assert(inName == "N" && inSub == "tn" && inPub == "", "inside the handler the context reports that handler's name and topics (it has no publish topic), whatever the message carried before")
 	vrt.Observe("settled", settlementOf(m))
-	if adds {
+	if fails {
+		vrt.Assert(mwSaw == errScripted, "the middlewares of a no-publisher handler see exactly the error its function returned (filters compare errors)")
+		vrt.Assert(settlementOf(m) == 2, "a handler error means Nack")
+	} else if adds {
+		vrt.Assert(mwSaw == nil, "no error")
 		vrt.Assert(settlementOf(m) == 2, "output from a middleware in a no-publisher handler means Nack")
 	} else {
 		vrt.Assert(settlementOf(m) == 1, "no output: Ack")
